@@ -277,6 +277,8 @@ class SSH_Socket(ReadBuf, WriteBuf):
             if check_size % self.__block_size != 0:
                 self.__outputbuffer.fail('[exception] invalid ssh packet (block size)').write()
                 sys.exit(exitcodes.CONNECTION_ERROR)
+            if sshv == 1 and payload_length < 5:  # An SSH1 packet carries at least the message type byte and the CRC; report anything shorter as a read error instead of crashing.
+                raise SSH_Socket.InsufficientReadException('invalid ssh packet (payload too short)')
             self.ensure_read(payload_length)
             if sshv == 1:
                 payload = self.read(payload_length - 4)
